@@ -82,16 +82,94 @@ func credExec(c *Ctx, op string) {
 	c.Distinct(op)
 }
 
+// credUnprivExec: the unpacking process is an ordinary account (no CAP_CHOWN) and the filter asks for owners that are
+// not its own: the unpack is refused — or, if it answers success, every entry really has the owner the filter gives
+// (the id it reports describes those owners). Recipe: "cred-unpriv <filter>".
+func credUnprivExec(c *Ctx, op string) {
+	c.Begin(op)
+	filt := strings.Fields(op)[1]
+	bin := os.Getenv("RIO_BIN")
+	c.EmitR(op, "skip", "skip")
+	if bin == "" || os.Getuid() != 0 {
+		return
+	}
+	top, err := os.MkdirTemp("/tmp", "verif-cred-unpriv-")
+	if err != nil {
+		return
+	}
+	defer rmrf(top)
+	os.Chmod(top, 0755)
+	src, wh, area := filepath.Join(top, "src"), filepath.Join(top, "wh"), filepath.Join(top, "area")
+	os.MkdirAll(filepath.Join(src, "d"), 0755)
+	os.WriteFile(filepath.Join(src, "d", "f"), []byte("x"), 0644)
+	os.WriteFile(filepath.Join(src, "g"), []byte("y"), 0644)
+	for _, p := range []string{src, filepath.Join(src, "d"), filepath.Join(src, "d", "f"), filepath.Join(src, "g")} {
+		os.Lchown(p, 1000, 1001)
+	}
+	os.MkdirAll(wh, 0755)
+	os.MkdirAll(area, 0755)
+	env := append(os.Environ(), "RIO_CACHE="+filepath.Join(area, "cache"), "RIO_BASE="+filepath.Join(area, "riobase"), "HOME="+area)
+	pk := exec.Command(bin, "pack", "tar", src, "--target=ca+file://"+wh, "--filters", "uid=keep,gid=keep,mtime=keep,sticky=keep,setid=keep,dev=keep")
+	pk.Env = append(os.Environ(), "RIO_CACHE="+filepath.Join(top, "pcache"), "RIO_BASE="+filepath.Join(top, "pbase"))
+	out, err := pk.Output()
+	if err != nil {
+		return
+	}
+	id := strings.TrimSpace(string(out))
+	exec.Command("chown", "-R", "12345:12345", area).Run()
+	exec.Command("chmod", "-R", "a+rX", wh).Run()
+	dst := filepath.Join(area, "dst")
+	up := exec.Command(bin, "unpack", id, dst, "--source=ca+file://"+wh, "--placer=direct", "--filters", filt)
+	up.Env = env
+	up.Dir = area
+	up.SysProcAttr = &syscall.SysProcAttr{Credential: &syscall.Credential{Uid: 12345, Gid: 12345, NoSetGroups: false, Groups: []uint32{12345}}}
+	o, e := up.CombinedOutput()
+	c.H(fmt.Sprintf("cred-unpriv:ok=%v", e == nil))
+	if e != nil {
+		return // refused: fine
+	}
+	wantU, wantG := uint32(1000), uint32(1001)
+	for _, kv := range strings.Split(filt, ",") {
+		x := strings.SplitN(kv, "=", 2)
+		var n uint32
+		switch {
+		case x[0] == "uid" && x[1] == "mine":
+			wantU = 12345
+		case x[0] == "gid" && x[1] == "mine":
+			wantG = 12345
+		case x[0] == "uid" && x[1] != "follow":
+			fmt.Sscan(x[1], &n)
+			wantU = n
+		case x[0] == "gid" && x[1] != "follow":
+			fmt.Sscan(x[1], &n)
+			wantG = n
+		}
+	}
+	sn, _ := Snapshot(dst)
+	for _, en := range sn {
+		if en.Uid != wantU || en.Gid != wantG {
+			c.PropFail("filter-attr", fmt.Sprintf("rio unpack run by an ordinary account (12345:12345) under filters %s answered success (%s), but entry %q is owned %d:%d instead of %d:%d: the id reported describes owners the files do not have", filt, lastLine(string(o)), en.Name, en.Uid, en.Gid, wantU, wantG), op)
+			break
+		}
+	}
+	c.Distinct(op)
+}
+
 func credEngine(c *Ctx) {
 	if ls := replayLines(); ls != nil {
 		for _, op := range ls {
 			if strings.HasPrefix(op, "cred ") {
 				credExec(c, op)
+			} else if strings.HasPrefix(op, "cred-unpriv ") {
+				credUnprivExec(c, op)
 			}
 		}
 		return
 	}
 	rest := ",mtime=follow,sticky=follow,setid=follow,dev=follow"
+	for _, ug := range []string{"uid=4242,gid=4242", "uid=follow,gid=follow", "uid=mine,gid=mine", "uid=mine,gid=follow"} {
+		credUnprivExec(c, "cred-unpriv "+ug+rest)
+	}
 	for _, g := range []int{5, 77} {
 		for _, ug := range []string{"uid=mine,gid=mine", "uid=follow,gid=mine", "uid=mine,gid=follow", "uid=9,gid=mine", "uid=mine,gid=12"} {
 			credExec(c, fmt.Sprintf("cred %d %s%s", g, ug, rest))
